@@ -81,6 +81,24 @@ theorem C16_post_real (useStationary : Bool) (memSizes : Option (List Nat))
   · intro sz hsz; subst hsz
     exact h2 _ (memflex_mem_realChecks _ _)
 
+/-- `scheduler()` (top-level entry): whatever it RETURNS is an element of the search (`next(..)` = index 0, or
+`schedule_idx`), so it satisfies all post-conditions; when the search is empty there is no such element
+(`rs[idx]? = none`: Python raises `StopIteration` / `IndexError`) and nothing is returned — in particular
+never the unscheduled input. -/
+theorem C16_scheduler (mtch : Template → Schedule → Except Err Bool) (checks : List (Template → Schedule → Bool))
+    (tmpl : Template) (fuel : Nat) (s : Schedule) (rs : List Schedule) (idx : Nat) (r : Schedule)
+    (hwf : WF s) (hm : OpsOnly mtch) (hch : ∀ ch ∈ checks, OpsOnly ch)
+    (h : backtrack mtch checks tmpl fuel s 1 = .ok rs) (hr : rs[idx]? = some r) :
+    ∀ j, 1 ≤ j → j ≤ r.n →
+      mtch (tInnerRaw j tmpl) (innerRaw j r) = .ok true ∧
+      (∀ ch ∈ checks, ch (tInnerRaw j tmpl) (innerRaw j r) = true) ∧
+      (templateBound tmpl j ≠ 0 → r.bounds.getD (r.n - j) 0 ≤ templateBound tmpl j) :=
+  C16_post mtch checks tmpl fuel s rs hwf hm hch h r (List.mem_of_getElem? hr)
+
+/-- An infeasible workload (6 elements on a 4-lane template) has an empty search: nothing may be returned. -/
+example : backtrack matchesQ [isPureOutputStationary] ⟨[some 4], [⟨[[1]], [0]⟩]⟩ 12 ⟨[6], [⟨[[1]], [0]⟩]⟩ 1 = .ok [] := by
+  decide +kernel
+
 /-- **Soundness of the exact matcher**: whenever `matchesQ` accepts, template and schedule have the same
 number of operands, the schedule has at least the template's dims, and for every operand the template's
 (non-broadcast) rows and the schedule's rows restricted to the template dims span the same rational
